@@ -34,11 +34,19 @@ PREV = ["none", "none", "same", "other", "edit", "slack", "wrong", "subset", "su
 
 def generate(seed, tier="quick"):
     rng = sub(seed, "program")
-    prof = V.draw_profile(sub(seed, "profile"))
+    want_plugin = sub(seed, "driver").random() < 0.25
+    hrng = sub(seed, "hashseed")
+    # every real pytest process draws its own hash seed: a share of the histories runs the later sessions in an interpreter that was
+    # started with another PYTHONHASHSEED than the first one (sets of strings / of only partially ordered frozensets in the values)
+    hashseed2 = hrng.choice(["1", "1234567"]) if (not want_plugin and hrng.random() < 0.12) else None
+    if hashseed2:
+        prof = V.draw_profile(sub(seed, "profile"), hash_sensitive=True, alphabet="plain")
+        prof.special = sorted(set(prof.special) | {"set", "frozenset"} - {"norepr", "complex", "inf"})
+    else:
+        prof = V.draw_profile(sub(seed, "profile"))
     prof.special = [s for s in prof.special if s != "norepr"]
     prog = W.gen_program(rng, prof, {"prev": PREV, "n_files": (1, 3), "n_sites": (1, 4), "n_tests": (1, 3), "hand": 0.5, "idle": 0.2})
     erng = sub(seed, "externals")
-    want_plugin = sub(seed, "driver").random() < 0.25
     if want_plugin and erng.random() < 0.5:
         from . import c13
 
@@ -56,7 +64,8 @@ def generate(seed, tier="quick"):
     frng = sub(seed, "flags")
     approved = list(CATS) if frng.random() < 0.5 else [c for c in CATS if frng.random() < 0.5]
     driver = "plugin" if sub(seed, "driver").random() < 0.25 else "inline"
-    return {"program": prog, "approved": approved, "driver": driver, "fmt": draw_fmt(sub(seed, "fmt")), "repeats": 3 if frng.random() < 0.2 else 2}
+    return {"program": prog, "approved": approved, "driver": driver, "fmt": draw_fmt(sub(seed, "fmt")), "repeats": 3 if frng.random() < 0.2 else 2,
+            "hashseed2": hashseed2}
 
 
 def _is_complex_arith(n):
@@ -151,8 +160,16 @@ def execute(case, ctx):
         return out
     prev, prev_res = s1, r1
     for k in range(case.get("repeats", 2) - 1):
-        nxt, res = sim.run_session(ctx, driver, prev, spec)
-        if not sim.session_completed(driver, res):
+        if case.get("hashseed2") and driver == "inline":
+            from . import c16
+
+            ctx.count("probe_later_session_under_another_hash_seed")
+            ans = c16.call(case["hashseed2"], driver, prev, spec)
+            nxt = dict(sim.to_bytes(ans["files"]), **{k2: v2 for k2, v2 in prev.items() if k2 == "simlib.py"})
+            res = {"status": ans.get("status"), "categories": ans.get("categories"), "raises": ans.get("raises"), "exc": ans.get("exc"), "_completed": ans.get("completed")}
+        else:
+            nxt, res = sim.run_session(ctx, driver, prev, spec)
+        if not (res["_completed"] if "_completed" in res else sim.session_completed(driver, res)):
             # the same deterministic session completed before: not completing now is itself a change of behaviour,
             # but whether session-finish completes is C18's statement
             out["discards"]["repeat-session-did-not-complete(C18)"] = 1
